@@ -4,7 +4,7 @@ from __future__ import annotations
 import ast
 import re
 import warnings
-from typing import List, Optional
+from typing import Dict, List, Optional, Set, Tuple
 
 with warnings.catch_warnings():
     warnings.simplefilter("ignore")
@@ -16,172 +16,179 @@ from .. import lib as L
 from ..core import AnalysisError, FuncInfo, Repo, unparse
 from ..prov import callee_name
 from ..report import Finding, RuleResult
+from . import _c11_util as U
 
 TK = "lisp_parsers.pddl_tokenizer"
+INIT, TOKENIZE, READ, PARSE = "PDDLTokenizer.__init__", "PDDLTokenizer.tokenize", "PDDLTokenizer.read_from_tokens", "PDDLTokenizer.parse"
 WHITESPACE = {" ", "\t", "\n", "\r", "\f", "\v"}
+MUTATORS = ("popleft", "pop", "clear", "remove", "rotate", "reverse", "append", "appendleft", "extend", "extendleft", "insert", "sort")
+WS4 = {" ": "blank", "\t": "tab", "\n": "newline", "\r": "carriage return"}
 
 EXPLANATION = (
-    "C11.pipeline: on the def-use chain from the input text to the token deque no separator character is deleted "
-    "(replace(<whitespace>, '')), lower() is applied, both parentheses are padded with blanks on both sides, the split is on "
-    "arbitrary whitespace, comments are removed from ';' to the end of the line (regex AST: literal ';' followed by a repeat of "
-    "'any character but newline', replaced by '') before tokenising, and both input modes (file / string) feed the same tokenize(). "
-    "C11.eof: parse() must reject text that continues after the top-level form (a test of the remaining tokens that raises). "
-    "C11.reader: read_from_tokens raises on empty input and on a stray ')', the list branch appends the recursive result until the "
-    "matching ')' and consumes it, an atom is returned unchanged."
+    "C11.pipeline: the value flow from the constructor parameters (file_path -> open / read ..., pddl_str) through the stored attribute to "
+    "every element of the container that tokenize() returns is evaluated as chains of string operations (sa/rules/_c11_util.py: "
+    "helpers inlined or evaluated in place, intermediate names, loops / comprehensions / generators / map, module or class constants, "
+    "compiled patterns and f-strings are transparent). On every chain: no separator is deleted (replace(<whitespace>, ''), ''.join of "
+    "pieces without line ends, re.sub(<whitespace>, '')), no operation rewrites, drops or reorders tokens, lower() is applied, ';' "
+    "comments are cut to the end of the line before tokenising (regex AST: literal ';' followed by an unbounded repeat of 'any character "
+    "but newline', no DOTALL, '$' only with MULTILINE on multi-line text, applied per line or on text whose newlines still end the "
+    "lines; or partition(';')[0] / split(';')[0] / x[:x.index(';')] per line; a test `';' in line` splits the judgement into the "
+    "world with and the world without a comment), and the tokens are either the whitespace split() of text in which both parentheses "
+    "were padded with blanks on both sides (replace, translate table or re.sub with a back-reference), or the matches of a scanning "
+    "regex that makes each parenthesis a token of its own and excludes every separator that can still be present at that point of the "
+    "chain (separators normalised away upstream are tracked along the chain). A line is kept out of the token stream only by "
+    "comment-line / blank-line tests (guard valuation over the filters of comprehensions, filter() and of the loops that add tokens); "
+    "both input modes (file / string) reach tokenize(). "
+    "C11.eof: parse() must reject text that continues after the top-level form: after read_from_tokens a test of the same token "
+    "container for emptiness under which 'tokens remain' raises and does not return. "
+    "C11.reader: guard valuation of read_from_tokens (private helpers inlined) over (input empty, first token is '(' / ')', next token "
+    "is ')'): empty input raises (test or IndexError handler around the first access), a stray ')' raises, an atom is returned as the "
+    "consumed token itself, the '(' case consumes it, appends the result of the recursive call on the same tokens exactly once per "
+    "iteration exactly while the next token is not ')', consumes that ')' and returns that very list; parse() hands the unmodified "
+    "tokens of tokenize() to the reader."
 )
 UNDECIDED = "nothing essential beyond running it; still, these are necessary conditions, not an equivalence proof of the reader"
 
 
-def rule_pipeline(repo: Repo) -> RuleResult:
-    r = RuleResult("C11.pipeline", "text -> tokens: no separator deleted, lower-cased, parentheses padded, whitespace split, ';' comments cut",
-                   "invariant under layout, comments and case; distinct tokens never merge or split")
-    mod = repo.module(TK)
-    funcs = [f for f in repo.all_funcs() if f.mod is mod]
-    init = repo.func("PDDLTokenizer.__init__")
-    tok = repo.func("PDDLTokenizer.tokenize")
-    # (1) no deletion of whitespace
-    for f in funcs:
-        for c in L.calls_in(f.node):
-            if isinstance(c.func, ast.Attribute) and c.func.attr == "replace" and len(c.args) >= 2 and \
-                    all(isinstance(a, ast.Constant) and isinstance(a.value, str) for a in c.args[:2]):
-                a, b = c.args[0].value, c.args[1].value
-                r.site(L.site(f, c, "replace"))
-                if a and set(a) <= WHITESPACE and b == "":
-                    r.fail(Finding("C11.pipeline", f, f"deletes-separator:{a!r}", f"{unparse(c, 60)} deletes the separator {a!r}: the tokens on both sides merge "
-                                   f"('(a<TAB>b)' reads as ['ab'])", node=c))
-                elif a in ("(", ")"):
-                    if b.strip() == a and b.startswith(" ") and b.endswith(" "):
-                        r.ok({"pads": a, "with": b})
-                    else:
-                        r.fail(Finding("C11.pipeline", f, f"padding:{a}", f"{a!r} is replaced by {b!r}: a parenthesis is not separated from its neighbours on both sides", node=c))
-                else:
-                    r.ok({"replace": [a, b]})
-    # (2) the chain in tokenize
-    p = L.prov(repo, tok)
-    exts = [c for c in L.calls_in(tok.node) if isinstance(c.func, ast.Attribute) and c.func.attr in ("extend", "append", "extendleft")]
-    if not exts:
-        raise AnalysisError("tokenize: the statement that adds tokens to the deque was not recognised")
-    r.site(tok.qn + " [chain]")
-    tr = p.trace(exts[0].args[0])
-    src = [x for x in tr if x[0] == "self" and "attr:pddl_file_content" in x]
-    scans = []
-    for c in L.calls_in(tok.node):
-        pat = _scan_pattern(repo, tok, c)
-        if pat is not None:
-            scans.append((c, pat))
-    if not src:
-        r.fail(Finding("C11.pipeline", tok, "chain:source", "tokens do not derive from self.pddl_file_content"))
-    elif scans:
-        # second idiom: tokens are the matches of a scanning regex  ( [()] | <token class>+ )
-        problems = _scan_regex_problems(scans[0][1])
-        # separators that were already normalised away upstream (replace / split on that character) cannot reach the scan
-        handled = set()
-        for fn_ in funcs:
-            for c_ in L.calls_in(fn_.node):
-                if isinstance(c_.func, ast.Attribute) and c_.func.attr in ("replace", "split") and c_.args and isinstance(c_.args[0], ast.Constant) \
-                        and isinstance(c_.args[0].value, str) and len(c_.args[0].value) == 1:
-                    handled.add(c_.args[0].value)
-                if isinstance(c_.func, ast.Attribute) and c_.func.attr == "splitlines":
-                    handled |= {"\n", "\r"}
-                if isinstance(c_.func, ast.Attribute) and c_.func.attr == "readlines":
-                    handled.add("\n")
-        names = {"\t": "tab", "\n": "newline", "\r": "carriage return", " ": "blank"}
-        problems = [p_ for p_ in problems if not any(p_.endswith("a " + names[h]) for h in handled if h in names)]
-        lowered = any("call:lower" in x for x in src)
-        comment_ok = any(_is_comment_regex(c.args[0].value) for c in L.calls_in(tok.node)
-                         if ast.unparse(c.func) in ("re.sub", "sub") and len(c.args) >= 3 and isinstance(c.args[0], ast.Constant)) or \
-            any(isinstance(c.func, ast.Attribute) and c.func.attr in ("partition", "split") and c.args and isinstance(c.args[0], ast.Constant) and c.args[0].value == ";"
-                for c in L.calls_in(tok.node))
-        if not lowered:
-            problems.append("lower() is not applied")
-        if not comment_ok:
-            problems.append("';' comments are not removed")
-        if problems:
-            r.fail(Finding("C11.pipeline", tok, "scan-regex:" + "/".join(sorted({p_.split(":")[0] for p_ in problems})),
-                           f"tokens are the matches of {scans[0][1]!r}: {problems}", node=scans[0][0]))
-        else:
-            r.ok({"chain": "regex scan", "pattern": scans[0][1]})
-    else:
-        need = {"lower": any("call:lower" in x for x in src), "split": any("call:split" in x for x in src),
-                "pad(": False, "pad)": False, "comment": False}
-        for c in L.calls_in(tok.node):
-            if isinstance(c.func, ast.Attribute) and c.func.attr == "replace" and c.args and isinstance(c.args[0], ast.Constant):
-                if c.args[0].value == "(":
-                    need["pad("] = True
-                if c.args[0].value == ")":
-                    need["pad)"] = True
-        # split on arbitrary whitespace: split() with no argument
-        splits = [c for c in L.calls_in(tok.node) if isinstance(c.func, ast.Attribute) and c.func.attr == "split"]
-        ws_split = any(not c.args and not c.keywords for c in splits)
-        # comment removal
-        subs = [c for c in L.calls_in(tok.node) if ast.unparse(c.func) in ("re.sub", "sub")]
-        comment_ok = False
-        for c in subs:
-            if len(c.args) >= 3 and isinstance(c.args[0], ast.Constant) and isinstance(c.args[1], ast.Constant) and c.args[1].value == "":
-                comment_ok = _is_comment_regex(c.args[0].value)
-        for c in splits:
-            if c.args and isinstance(c.args[0], ast.Constant) and c.args[0].value == ";":
-                comment_ok = True  # line.split(';')[0] idiom
-        for c in L.calls_in(tok.node):
-            if isinstance(c.func, ast.Attribute) and c.func.attr == "partition" and c.args and isinstance(c.args[0], ast.Constant) and c.args[0].value == ";":
-                comment_ok = True
-        need["comment"] = comment_ok and any(any(s.startswith("arg2:sub") or s in ("call:partition",) or s == "call:split" for s in x) for x in src)
-        missing = [k for k, v in need.items() if not v] + ([] if ws_split else ["whitespace-split"])
-        if missing:
-            r.fail(Finding("C11.pipeline", tok, f"chain:{'/'.join(missing)}", f"tokenisation chain lacks {missing}"), {"chain": need})
-        else:
-            r.ok({"chain": sorted(need), "split": "str.split() on arbitrary whitespace"})
-    # (3) both input modes feed the same attribute
-    r.site(init.qn + " [input modes]")
-    stores = [n for n in ast.walk(init.node) if isinstance(n, ast.Assign) and any(isinstance(t, ast.Attribute) and t.attr == "pddl_file_content" for t in n.targets)]
-    pi = L.prov(repo, init)
-    roots = set()
-    for s in stores:
-        for x in pi.trace(s.value):
-            if x[0].startswith("param:"):
-                roots.add(x[0])
-    if {"param:file_path", "param:pddl_str"} <= roots:
-        r.ok({"modes": sorted(roots)})
-    else:
-        r.fail(Finding("C11.pipeline", init, "input-modes", f"pddl_file_content is fed from {sorted(roots)} only"))
-    r.require_sites(3)
-    return r
+# --------------------------------------------------------------------------- regular expressions (AST of the pattern, never executed)
+def _parse_re(pat) -> Optional[Tuple[list, int]]:
+    if not isinstance(pat, str):
+        return None
+    try:
+        with warnings.catch_warnings():
+            warnings.simplefilter("ignore")
+            tree = sre_parse.parse(pat)
+    except Exception:
+        return None
+    return list(tree), tree.state.flags
 
 
-def _scan_pattern(repo: Repo, f: FuncInfo, c: ast.Call) -> Optional[str]:
-    """pattern string of re.findall(P, ..) / re.finditer(P, ..) / <compiled>.findall(..) where <compiled> = re.compile(P)"""
-    fn = ast.unparse(c.func)
-    if fn in ("re.findall", "re.finditer") and c.args and isinstance(c.args[0], ast.Constant) and isinstance(c.args[0].value, str):
-        return c.args[0].value
-    if isinstance(c.func, ast.Attribute) and c.func.attr in ("findall", "finditer"):
-        recv = c.func.value
-        cands: List[ast.AST] = []
-        if isinstance(recv, ast.Attribute) and isinstance(recv.value, ast.Name) and f.cls:
-            for st in repo.classes[f.cls].node.body:
-                if isinstance(st, ast.Assign) and any(isinstance(t, ast.Name) and t.id == recv.attr for t in st.targets):
-                    cands.append(st.value)
-        if isinstance(recv, ast.Name):
-            node = repo.const_node(f.mod.name, recv.id)
-            if node is not None:
-                cands.append(node)
-        for v in cands:
-            if isinstance(v, ast.Call) and ast.unparse(v.func) in ("re.compile", "compile") and v.args and isinstance(v.args[0], ast.Constant):
-                return v.args[0].value
+def _flag_names(v: Optional[U.V]) -> Optional[Set[str]]:
+    """names of the re flags in a flags argument (None: not interpretable)"""
+    if v is None:
+        return set()
+    if v.kind == "const" and v.value in (0, None):
+        return set()
+    if v.kind == "const" and isinstance(v.value, int):
+        out = set()
+        for name, bit in (("I", re.I), ("M", re.M), ("S", re.S), ("X", re.X), ("A", re.A)):
+            if v.value & bit:
+                out.add(name)
+        return out
+    if v.kind == "leaf" and v.name.startswith("global:re."):
+        n = v.name.rsplit(".", 1)[1]
+        table = {"IGNORECASE": "I", "MULTILINE": "M", "DOTALL": "S", "VERBOSE": "X", "ASCII": "A", "UNICODE": "U", "NOFLAG": ""}
+        n = table.get(n, n)
+        return {n} - {""} if n in ("I", "M", "S", "X", "A", "U", "") else None
+    if v.kind == "binop" and v.name == "BitOr":
+        a, b = _flag_names(v.parts[0]), _flag_names(v.parts[1])
+        return None if a is None or b is None else a | b
     return None
+
+
+def _ws_only_item(op, av) -> bool:
+    """a regex item that can only match whitespace"""
+    if op == sre_c.LITERAL:
+        return chr(av) in WHITESPACE
+    if op == sre_c.IN:
+        return bool(av) and all((o == sre_c.LITERAL and chr(a) in WHITESPACE) or (o == sre_c.CATEGORY and a == sre_c.CATEGORY_SPACE) for o, a in av)
+    if op in (sre_c.MAX_REPEAT, sre_c.MIN_REPEAT):
+        return all(_ws_only_item(o, a) for o, a in av[2])
+    return False
+
+
+def _comment_regex(pat, flags: Set[str], multi: bool) -> Tuple[bool, str]:
+    """literal ';' followed by a repeat of 'anything but a newline' to the end of the line (optionally preceded by whitespace)"""
+    pr = _parse_re(pat)
+    if pr is None:
+        return False, "the pattern cannot be parsed"
+    items, inline = pr
+    dotall = "S" in flags or bool(inline & re.S)
+    multiline = "M" in flags or bool(inline & re.M)
+    if "X" in flags:
+        return False, "VERBOSE pattern is not interpreted"
+    while items and items[0][0] in (sre_c.MAX_REPEAT, sre_c.MIN_REPEAT) and _ws_only_item(*items[0]):
+        items = items[1:]
+    if len(items) < 2 or not (items[0][0] == sre_c.LITERAL and items[0][1] == ord(";")):
+        return False, "the pattern does not start with a literal ';'"
+    op1, av1 = items[1]
+    if op1 not in (sre_c.MAX_REPEAT, sre_c.MIN_REPEAT):
+        return False, "';' is not followed by a repetition"
+    lo, hi, sub = av1
+    sub = list(sub)
+    if lo != 0 or hi != sre_c.MAXREPEAT or len(sub) != 1:
+        return False, "the repetition after ';' is bounded"
+    o, a = sub[0]
+    if o == sre_c.ANY:
+        if dotall:
+            return False, "'.' matches newlines (DOTALL): the comment swallows the following lines"
+    elif o == sre_c.IN and a and a[0][0] == sre_c.NEGATE and {(x, y) for x, y in a[1:]} <= {(sre_c.LITERAL, 10), (sre_c.LITERAL, 13)} and (sre_c.LITERAL, 10) in a[1:]:
+        pass
+    elif o == sre_c.NOT_LITERAL and a == 10:
+        pass
+    else:
+        return False, "the repetition after ';' does not run over every character up to the end of the line"
+    rest = items[2:]
+    if not all(op == sre_c.AT and av in (sre_c.AT_END, sre_c.AT_END_LINE, sre_c.AT_END_STRING) for op, av in rest):
+        return False, "the pattern continues after the comment body"
+    if op1 == sre_c.MIN_REPEAT and not rest:
+        return False, "a lazy repetition without an end anchor matches the ';' only"
+    if rest and multi and not multiline:
+        return False, "'$' without MULTILINE on a multi-line text only matches on the last line"
+    if rest and any(av == sre_c.AT_END_STRING for _o, av in rest) and multi:
+        return False, "\\Z on a multi-line text only matches on the last line"
+    return True, ""
+
+
+def _pad_regex(pat, repl) -> Optional[Set[str]]:
+    """re.sub(r'([()])', r' \\1 ', s): the set of parentheses that are padded on both sides (None: not this idiom)"""
+    pr = _parse_re(pat)
+    if pr is None or not isinstance(repl, str):
+        return None
+    items, _ = pr
+    group = 0
+    if len(items) == 1 and items[0][0] == sre_c.SUBPATTERN:
+        group = items[0][1][0] or 0
+        items = list(items[0][1][3])
+    if len(items) != 1:
+        return None
+    op, av = items[0]
+    if op == sre_c.LITERAL and chr(av) in "()":
+        chars = {chr(av)}
+    elif op == sre_c.IN and av and all(o == sre_c.LITERAL and chr(a) in "()" for o, a in av):
+        chars = {chr(a) for _o, a in av}
+    else:
+        return None
+    m = re.fullmatch(r"(\s+)(\\g<0>|\\g<(\d+)>|\\(\d+))(\s+)", repl)
+    if not m:
+        return set()
+    ref = 0 if m.group(2) == "\\g<0>" else int(m.group(3) or m.group(4))
+    if ref != 0 and ref != group:
+        return set()
+    return chars
+
+
+def _ws_regex(pat) -> bool:
+    pr = _parse_re(pat)
+    return pr is not None and bool(pr[0]) and all(_ws_only_item(o, a) for o, a in pr[0])
 
 
 def _scan_regex_problems(pat: str) -> List[str]:
     """a scanning token pattern must (a) match each parenthesis as a token of its own and (b) never let a token contain
     whitespace or a parenthesis"""
     out: List[str] = []
-    with warnings.catch_warnings():
-        warnings.simplefilter("ignore")
-        tree = sre_parse.parse(pat)
-    items = list(tree)
+    pr = _parse_re(pat)
+    if pr is None:
+        return ["pattern: cannot be parsed"]
+    items = pr[0]
+    while len(items) == 1 and items[0][0] == sre_c.SUBPATTERN:      # one group around the whole pattern: findall returns the same text
+        items = list(items[0][1][3])
     alts = [list(a) for a in items[0][1][1]] if len(items) == 1 and items[0][0] == sre_c.BRANCH else [items]
     paren_alt = False
     for alt in alts:
-        if len(alt) == 1 and alt[0][0] == sre_c.IN and {a for o, a in alt[0][1] if o == sre_c.LITERAL} == {40, 41}:
+        while len(alt) == 1 and alt[0][0] == sre_c.SUBPATTERN:
+            alt = list(alt[0][1][3])
+        if len(alt) == 1 and alt[0][0] == sre_c.IN and {a for o, a in alt[0][1] if o == sre_c.LITERAL} == {40, 41} and all(o == sre_c.LITERAL for o, _a in alt[0][1]):
             paren_alt = True
             continue
         if len(alt) == 1 and alt[0][0] == sre_c.LITERAL and alt[0][1] in (40, 41):
@@ -205,6 +212,17 @@ def _scan_regex_problems(pat: str) -> List[str]:
                         else:
                             if any(x == sre_c.CATEGORY and y in (sre_c.CATEGORY_SPACE, sre_c.CATEGORY_NOT_WORD, sre_c.CATEGORY_NOT_DIGIT) for x, y in members):
                                 out.append("separator-in-token: the token class contains whitespace")
+                            if any(x == sre_c.LITERAL and chr(y) in WHITESPACE for x, y in members):
+                                out.append("separator-in-token: the token class contains whitespace")
+                            if any(x == sre_c.CATEGORY and y in (sre_c.CATEGORY_NOT_SPACE, sre_c.CATEGORY_NOT_WORD, sre_c.CATEGORY_NOT_DIGIT) for x, y in members) or \
+                                    any(x == sre_c.LITERAL and y in (40, 41) for x, y in members) or \
+                                    any(x == sre_c.RANGE and y[0] <= 40 and y[1] >= 41 for x, y in members):
+                                out.append("paren-in-token: the token class lets a token contain a parenthesis")
+                    elif o == sre_c.NOT_LITERAL:
+                        out.append("paren-in-token: a token may contain a parenthesis")
+                        for ch, name in ((32, "blank"), (9, "tab"), (10, "newline"), (13, "carriage return")):
+                            if ch != a:
+                                out.append(f"separator-in-token: a token may contain a {name}")
                     elif o == sre_c.ANY:
                         out.append("separator-in-token: '.' inside a token")
                     elif o == sre_c.CATEGORY and a == sre_c.CATEGORY_NOT_SPACE:
@@ -214,49 +232,897 @@ def _scan_regex_problems(pat: str) -> List[str]:
     return sorted(set(out))
 
 
-def _is_comment_regex(pat: str) -> bool:
-    """literal ';' followed by a (greedy or lazy) repeat of ANY (no DOTALL), to the end of the line"""
+# --------------------------------------------------------------------------- judging one chain  source -> ... -> token
+class _NotInterpreted(Exception):
+    pass
+
+
+class _Chain:
+    """abstract state while the operations of one chain are replayed from the root to the token"""
+
+    def __init__(self):
+        self.kind = "?"            # path | handle | str | list | matches | match
+        self.multi = True          # the string may hold several lines of the input
+        self.nl = True             # newlines still end the lines of a multi-line string
+        self.str_nl = False        # a single line that still carries its newline
+        self.elem_multi = False
+        self.elem_nl = False
+        self.elem_token = False
+        self.token = False         # the string is one token
+        self.ws: Set[str] = set(WS4)
+        self.lowered = False
+        self.comment = False
+        self.comment_why = ""
+        self.pad = {"(": False, ")": False}
+        self.tokenised: Optional[str] = None
+        self.bad_split: Optional[U.Op] = None
+        self.scan: Optional[Tuple[str, Set[str], U.Op]] = None
+        self.cut = False           # list produced by split(';') / partition(';'): element 0 is the line without its comment
+        self.root = ""
+        self.root_home: Optional[FuncInfo] = None
+        self.via_file = False
+        self.dead = False
+        self.has_semi = False      # judged in the world where the line is known to contain a ';'
+        self.problems: List[Tuple[str, str, U.Op]] = []
+        self.replaces: List[Tuple[U.Op, object, object]] = []
+
+    # -- helpers
+    def _consts(self, op: U.Op, n: int) -> List[object]:
+        vals = []
+        for i in range(n):
+            ok, v = U.const_of(op.arg(i))
+            if not ok:
+                raise _NotInterpreted(f"argument {i + 1} of {op.name}() on the token chain is not a constant ({unparse(op.v.node, 60)})")
+            vals.append(v)
+        return vals
+
+    def _to_str(self, multi=None, token=False):
+        self.kind = "str"
+        if multi is not None:
+            self.multi = multi
+        self.token = token
+
+    def problem(self, role: str, text: str, op: U.Op):
+        self.problems.append((role, text, op))
+
+    # -- replay
+    def step(self, op: U.Op):
+        k, name = op.kind, op.name
+        if k == "root":
+            self.root = name
+            self.root_home = op.home
+            self.kind, self.multi, self.nl = "str", True, True
+            if name == "const" and op.v.value is None:
+                self.dead = True       # a None placeholder (e.g. a cache attribute before it is filled) carries no tokens
+            return
+        if self.dead:
+            return
+        if k == "attr-store":
+            return
+        if k == "collect":
+            if name == "one":
+                self.elem_multi, self.elem_nl, self.elem_token = self.multi, self.str_nl, self.token
+                self.kind = "list"
+            return
+        if k == "elem":
+            if self.kind == "handle":
+                self._to_str(multi=False)
+                self.str_nl = True
+            elif self.kind == "list":
+                tok = self.elem_token
+                self._to_str(multi=self.elem_multi, token=tok)
+                self.str_nl = self.elem_nl
+            elif self.kind == "matches":
+                self.kind = "match"
+            else:
+                raise _NotInterpreted(f"iteration over a {self.kind} on the token chain ({unparse(op.v.node, 60)})")
+            return
+        if k == "item":
+            idx = op.v.value
+            if self.kind == "list" and self.cut:
+                self.cut = False
+                self._to_str(multi=self.elem_multi)
+                self.str_nl = False
+                if idx == 0 and not self.elem_multi:
+                    self.comment = True
+                elif idx == 0:
+                    self.comment_why = "cutting at the first ';' of a multi-line text drops everything after the first comment"
+                else:
+                    self.comment_why = f"element {idx!r} of the text split at ';' is not the part before the comment"
+                return
+            if self.kind == "match" and idx == 0:
+                self._to_str(multi=False, token=True)
+                return
+            if self.kind == "list" and idx is None:
+                self.step(U.Op("elem", "", op.v))
+                return
+            if self.kind == "list":
+                self.problem("alters-token:subscript", f"{unparse(op.v.node, 60)} keeps one element of the list of "
+                                                       f"{'tokens' if self.elem_token else 'lines'} and drops the others", op)
+                self._to_str(multi=self.elem_multi, token=self.elem_token)
+                self.str_nl = self.elem_nl
+                return
+            raise _NotInterpreted(f"subscript [{idx!r}] of a {self.kind} on the token chain ({unparse(op.v.node, 60)})")
+        if k == "slice":
+            lo, hi, step = op.v.value
+            if self.kind == "str" and lo in (None, 0) and not step and isinstance(hi, U.V) and hi.kind == "call" and hi.name in ("find", "index") and hi.args \
+                    and U.const_of(hi.args[0]) == (True, ";"):
+                if (hi.name == "index" or self.has_semi) and not self.multi:
+                    self.comment = True
+                else:
+                    self.comment_why = "x[:x.find(';')] drops the last character of a line without a comment" if hi.name == "find" else "cut of a multi-line text"
+                return
+            if self.kind == "list" and lo in (None, 0) and hi is None and not step:
+                return
+            if self.kind == "list" and not self.cut:
+                self.problem("alters-token:subscript", f"{unparse(op.v.node, 60)} drops some of the {'tokens' if self.elem_token else 'lines'}", op)
+                return
+            raise _NotInterpreted(f"slice of a {self.kind} on the token chain ({unparse(op.v.node, 60)})")
+        if k == "attr":
+            raise _NotInterpreted(f"attribute .{name} on the token chain ({unparse(op.v.node, 60)})")
+        if k != "call":
+            raise _NotInterpreted(f"{k} on the token chain")
+        self._call(op, name)
+
+    def _call(self, op: U.Op, name: str):
+        method = op.v.recv is not None
+        # ---- files
+        if not method and name == "open":
+            self.kind, self.via_file = "handle", True
+            return
+        if not method and name == "Path":
+            self.kind = "path"
+            return
+        if not method and name in ("io.StringIO", "StringIO") and self.kind == "str":
+            self.kind = "handle"
+            return
+        if method and name == "copy" and self.kind == "list":
+            return
+        if method and name == "open" and self.kind in ("path", "str"):
+            self.kind, self.via_file = "handle", True
+            return
+        if method and name in ("read", "read_text") and self.kind in ("handle", "path", "str"):
+            self.via_file = self.via_file or name == "read_text"
+            self._to_str(multi=True)
+            self.nl, self.ws, self.str_nl = True, set(WS4), False
+            return
+        if method and name == "readlines" and self.kind == "handle":
+            self.kind, self.elem_multi, self.elem_nl, self.elem_token, self.cut = "list", False, True, False, False
+            return
+        if not method and name in U.PASS_CALLS:
+            return
+        if not method and name == "filter":
+            return
+        if not method and name == "enumerate":
+            raise _NotInterpreted("enumerate() whose pairs are used as tokens")
+        if not method and name in ("sorted", "reversed", "set", "frozenset"):
+            self.problem(f"alters-token:{name}", f"{name}() changes the order / multiplicity of the tokens", op)
+            return
+        # ---- regular expressions
+        if not method and name in ("re.sub", "re.subn") and self.kind == "str":
+            pat, repl = self._consts(op, 2)
+            flags = _flag_names(op.arg(4, "flags") if "__compiled__" not in op.v.kw else op.v.kw.get("flags"))
+            if flags is None:
+                raise _NotInterpreted(f"flags of {unparse(op.v.node, 60)}")
+            if name == "re.subn":
+                raise _NotInterpreted("re.subn on the token chain")
+            self._resub(op, pat, repl, flags)
+            return
+        if not method and name in ("re.findall", "re.finditer") and self.kind == "str":
+            (pat,) = self._consts(op, 1)
+            if self.token:
+                raise _NotInterpreted("regex scan of a single token")
+            self.scan = (pat, set(self.ws), op)
+            self.tokenised = "scan"
+            self.kind = "list" if name == "re.findall" else "matches"
+            self.elem_multi, self.elem_nl, self.elem_token, self.cut = False, False, True, False
+            self.ws = set()
+            return
+        if method and name == "group" and self.kind == "match":
+            if op.v.args and U.const_of(op.v.args[0]) != (True, 0):
+                raise _NotInterpreted("match.group(n) with n != 0 as a token")
+            self._to_str(multi=False, token=True)
+            return
+        if not method:
+            raise _NotInterpreted(f"call of {name}() on the token chain ({unparse(op.v.node, 60)})")
+        # ---- string / list methods
+        if name == "join":
+            ok, sep = U.const_of(op.v.recv)
+            if not ok or not isinstance(sep, str):
+                raise _NotInterpreted(f"separator of {unparse(op.v.node, 60)} is not a constant")
+            if self.kind != "str":
+                raise _NotInterpreted(f"join of {self.kind}")
+            # the state is that of one joined element (the data flowed through elem(<argument>))
+            if sep == "" and not self.str_nl:
+                self.problem("deletes-separator:join", f"{unparse(op.v.node, 60)} glues the pieces together without a separator: the last token of one piece and "
+                                                       f"the first of the next merge", op)
+            elif sep.strip() != "":
+                self.problem("alters-token:join", f"{unparse(op.v.node, 60)} inserts {sep!r} between the pieces", op)
+            self.nl = ("\n" in sep or self.str_nl) and not self.token
+            if self.token:
+                self.tokenised = None
+                self.ws = set()
+            self.ws |= {c for c in sep if c in WS4}
+            self._to_str(multi=True)
+            self.str_nl = False
+            return
+        if self.kind != "str":
+            raise _NotInterpreted(f"{name}() on a {self.kind} on the token chain ({unparse(op.v.node, 60)})")
+        if name == "lower":
+            self.lowered = True
+            return
+        if name in ("upper", "swapcase", "title", "capitalize", "casefold"):
+            self.lowered = False
+            self.problem(f"alters-token:{name}", f"{name}() changes the case of the tokens after / instead of lower()", op)
+            return
+        if name in ("strip", "lstrip", "rstrip"):
+            if op.v.args:
+                (chars,) = self._consts(op, 1)
+                if chars is not None and (not isinstance(chars, str) or set(chars) - WHITESPACE):
+                    self.problem(f"alters-token:{name}", f"{unparse(op.v.node, 60)} removes non-blank characters from the text", op)
+            if name != "lstrip":
+                self.str_nl = False
+            return
+        if name == "expandtabs":
+            self.ws.discard("\t")
+            self.ws.add(" ")
+            return
+        if name == "splitlines":
+            keep = op.arg(0, "keepends")
+            keep = keep is not None and U.const_of(keep) != (True, False)
+            self.kind, self.elem_multi, self.elem_nl, self.elem_token, self.cut = "list", self.multi and not self.nl, keep, False, False
+            if not keep:
+                self.ws -= {"\n", "\r"}
+            return
+        if name == "split":
+            sep = op.arg(0, "sep")
+            ok, sv = U.const_of(sep) if sep is not None else (True, None)
+            if not ok:
+                raise _NotInterpreted(f"separator of {unparse(op.v.node, 60)} is not a constant")
+            self.cut = False
+            if sv is None:
+                self.tokenised = "split"
+                self.kind, self.elem_multi, self.elem_nl, self.elem_token = "list", False, False, True
+                self.ws = set()
+            elif sv == "\n" and not self.token:
+                self.kind, self.elem_multi, self.elem_nl, self.elem_token = "list", self.multi and not self.nl, False, False
+                self.ws.discard("\n")
+            elif sv == ";":
+                self.kind, self.elem_multi, self.elem_nl, self.elem_token, self.cut = "list", self.multi, False, False, True
+            elif isinstance(sv, str) and sv and not set(sv) - WHITESPACE:
+                self.tokenised = "split"
+                self.bad_split = op
+                self.kind, self.elem_multi, self.elem_nl, self.elem_token = "list", False, False, True
+            else:
+                raise _NotInterpreted(f"{unparse(op.v.node, 60)} on the token chain")
+            return
+        if name == "partition":
+            (sv,) = self._consts(op, 1)
+            if sv != ";":
+                raise _NotInterpreted(f"{unparse(op.v.node, 60)} on the token chain")
+            self.kind, self.elem_multi, self.elem_nl, self.elem_token, self.cut = "list", self.multi, False, False, True
+            return
+        if name == "translate":
+            table = op.arg(0)
+            if table is not None and table.kind == "call" and table.recv is None and table.name == "str.maketrans" and len(table.args) == 1:
+                table = table.args[0]
+            if table is None or table.kind != "dict" or not all(k.kind == "const" and v.kind == "const" for k, v in table.parts):
+                raise _NotInterpreted(f"translation table of {unparse(op.v.node, 60)}")
+            for k, v in table.parts:
+                a, b = (chr(k.value) if isinstance(k.value, int) else k.value), ("" if v.value is None else v.value)
+                self._replace(op, a, b)
+            return
+        if name == "replace":
+            a, b = self._consts(op, 2)
+            self._replace(op, a, b)
+            return
+        raise _NotInterpreted(f"{name}() on the token chain ({unparse(op.v.node, 60)})")
+
+    def _replace(self, op: U.Op, a, b):
+        self.replaces.append((op, a, b))
+        if not isinstance(a, str) or not isinstance(b, str):
+            raise _NotInterpreted(f"{unparse(op.v.node, 60)}")
+        if a == b or a == "":
+            return
+        if not set(a) - WHITESPACE:
+            if b == "":
+                self.problem(f"deletes-separator:{a!r}", f"{unparse(op.v.node, 60)} deletes the separator {a!r}: the tokens on both sides merge "
+                                                         f"('(a<TAB>b)' reads as ['ab'])", op)
+            elif set(b) - WHITESPACE:
+                self.problem("alters-token:replace", f"{unparse(op.v.node, 60)} turns the separator {a!r} into token text", op)
+            if len(a) == 1:
+                self.ws.discard(a)
+            if "\n" in a and "\n" not in b:
+                self.nl = False
+            self.ws |= {c for c in b if c in WS4}
+            return
+        if a in ("(", ")"):
+            if b.strip() == a and b[:1].isspace() and b[-1:].isspace():
+                if not self.token:
+                    self.pad[a] = True
+            else:
+                self.problem(f"padding:{a}", f"{a!r} is replaced by {b!r}: a parenthesis is not separated from its neighbours on both sides", op)
+            self.ws |= {c for c in b if c in WS4}
+            return
+        self.problem("alters-token:replace", f"{unparse(op.v.node, 60)} rewrites token text", op)
+        return
+
+    def _resub(self, op: U.Op, pat, repl, flags: Set[str]):
+        pr = _parse_re(pat)
+        items = pr[0] if pr else []
+        while items and items[0][0] in (sre_c.MAX_REPEAT, sre_c.MIN_REPEAT) and _ws_only_item(*items[0]) and len(items) > 1:
+            items = items[1:]
+        if items and items[0] == (sre_c.LITERAL, ord(";")):
+            ok, why = _comment_regex(pat, flags, self.multi)
+            if ok and isinstance(repl, str) and not set(repl) - WHITESPACE and not self.token and (not self.multi or self.nl):
+                self.comment = True
+                self.ws |= {c for c in repl if c in WS4}
+            else:
+                self.comment_why = why or ("the comment is replaced by text" if not ok or (isinstance(repl, str) and set(repl) - WHITESPACE) else
+                                           "the comment regex runs on text whose line ends were already removed")
+            return
+        pads = _pad_regex(pat, repl)
+        if pads is not None:
+            for ch in sorted(_paren_chars(pat)):
+                if ch in pads:
+                    if not self.token:
+                        self.pad[ch] = True
+                else:
+                    self.problem(f"padding:{ch}", f"{unparse(op.v.node, 60)}: a parenthesis is not separated from its neighbours on both sides", op)
+            self.ws |= {c for c in repl if c in WS4}
+            return
+        if _ws_regex(pat) and isinstance(repl, str):
+            if repl == "":
+                self.problem("deletes-separator:regex", f"{unparse(op.v.node, 60)} deletes separators: the tokens on both sides merge", op)
+            elif set(repl) - WHITESPACE:
+                self.problem("alters-token:re.sub", f"{unparse(op.v.node, 60)} turns separators into token text", op)
+            else:
+                if any(o in (sre_c.MAX_REPEAT, sre_c.MIN_REPEAT, sre_c.IN) for o, _a in pr[0]) and any(
+                        (o == sre_c.CATEGORY) or (o == sre_c.IN and any(x == sre_c.CATEGORY for x, _y in a)) or
+                        (o in (sre_c.MAX_REPEAT, sre_c.MIN_REPEAT) and any(x == sre_c.CATEGORY or (x == sre_c.IN and any(z == sre_c.CATEGORY for z, _w in y)) for x, y in a[2]))
+                        for o, a in pr[0]):
+                    self.ws = set()
+                    if self.multi:
+                        self.nl = "\n" in repl
+                self.ws |= {c for c in repl if c in WS4}
+            return
+        self.problem("alters-token:re.sub", f"{unparse(op.v.node, 60)} rewrites the text in a way that is not a comment cut, a parenthesis padding or a "
+                                            f"whitespace normalisation", op)
+
+
+def _semicolon_atom(p, e: ast.Compare) -> Optional[str]:
+    """'semi' / '!semi' for tests whether a string contains a ';':  ';' in x,  ';' not in x,  x.find(';') != -1 / >= 0 / == -1 / < 0
+    (also through a local name: pos = x.find(';'); if pos != -1)"""
+    if len(e.ops) != 1:
+        return None
+    op, l, rr = e.ops[0], e.left, e.comparators[0]
+    if isinstance(op, (ast.In, ast.NotIn)) and _const_str(p, l) == {";"}:
+        return "semi" if isinstance(op, ast.In) else "!semi"
+    if isinstance(l, ast.Name):
+        try:
+            defs = p.rd.defs_reaching(p.node_of(l), l.id)
+        except KeyError:
+            return None
+        vals = [p.g.stmt[d].value for d in defs if d != p.g.entry and isinstance(p.g.stmt[d], (ast.Assign, ast.AnnAssign)) and p.g.stmt[d].value is not None]
+        if len(vals) != 1 or len(defs) != 1:
+            return None
+        l = vals[0]
+    if isinstance(l, ast.Call) and isinstance(l.func, ast.Attribute) and l.func.attr == "find" and len(l.args) == 1 and _const_str(p, l.args[0]) == {";"}:
+        c = rr.value if isinstance(rr, ast.Constant) else (-rr.operand.value if isinstance(rr, ast.UnaryOp) and isinstance(rr.op, ast.USub) and isinstance(rr.operand, ast.Constant) else None)
+        if c == -1:
+            return {ast.NotEq: "semi", ast.Gt: "semi", ast.Eq: "!semi"}.get(type(op))
+        if c == 0:
+            return {ast.GtE: "semi", ast.Lt: "!semi"}.get(type(op))
+    return None
+
+
+def _paren_chars(pat) -> Set[str]:
+    pr = _parse_re(pat)
+    out: Set[str] = set()
+
+    def walk(items):
+        for o, a in items:
+            if o == sre_c.LITERAL and chr(a) in "()":
+                out.add(chr(a))
+            elif o == sre_c.IN:
+                walk(a)
+            elif o == sre_c.SUBPATTERN:
+                walk(a[3])
+
+    if pr:
+        walk(pr[0])
+    return out
+
+
+def _judge(chain: List[U.Op], has_semi: bool = False) -> _Chain:
+    st = _Chain()
+    st.has_semi = has_semi
+    for op in reversed(chain):
+        st.step(op)
+    if st.kind == "list" and st.cut:
+        st.cut = False
+    return st
+
+
+# --------------------------------------------------------------------------- line filters
+def _line_filters(repo: Repo, f: FuncInfo, r: RuleResult):
+    """a line may be left out of the token stream only because it is a comment line or blank: under (not comment line, not blank)
+    every filter on the way passes.  Filters are the conditions of comprehensions / generator expressions over the lines and the
+    tests that let an iteration of a statement loop finish without reaching the statement that adds the tokens."""
+    p = L.prov(repo, f)
+    pm = L.parents_of(f)
+    flow = U.Flow(repo, f)
+
+    def derived(e: ast.AST, loose: bool) -> bool:
+        """the expression is a line of the input or a form of it that is blank exactly when (loose) / starts with the same non-blank
+        character as (strict) the code part of the line"""
+        try:
+            chs = U.chains(flow.value(e), lambda a: None, limit=40)
+        except Exception:
+            return False
+        for ch in chs:
+            cut = False
+            for op in reversed(ch):
+                if op.kind == "call" and op.v.recv is not None and op.name in ("strip", "lstrip", "rstrip", "lower", "expandtabs") and \
+                        (not op.v.args or (op.name != "lower" and all(a.kind == "const" and isinstance(a.value, str) and not set(a.value) - WHITESPACE for a in op.v.args))):
+                    continue
+                if op.kind in ("elem", "collect", "attr-store") or (op.kind == "item" and op.v.value is None and not cut):
+                    continue
+                if op.kind == "call" and op.v.recv is None and op.name in U.PASS_CALLS | {"filter"}:
+                    continue
+                if op.kind == "root" and (op.name.startswith(("self.", "param:")) or op.name == "self"):
+                    continue
+                if loose and op.kind == "call" and op.name in ("replace", "re.sub", "lower", "strip", "rstrip", "lstrip"):
+                    continue
+                if loose and op.kind == "call" and op.v.recv is not None and ((op.name in ("partition", "split") and op.v.args and U.const_of(op.v.args[0]) == (True, ";"))
+                                                                          or (op.name == "split" and not op.v.args and not op.v.kw)):
+                    cut = op.name == "partition" or bool(op.v.args)
+                    continue
+                if loose and op.kind == "item" and cut and op.v.value == 0:
+                    cut = False
+                    continue
+                return False
+        return bool(chs)
+
+    def line_like(e: ast.AST) -> bool:
+        return derived(e, True)
+
+    def stripped_left(e: ast.AST) -> bool:
+        return derived(e, False)
+
+    def first_char_is_semicolon(e: ast.AST) -> Optional[str]:
+        # X.startswith(';')
+        if isinstance(e, ast.Call) and isinstance(e.func, ast.Attribute) and e.func.attr == "startswith" and len(e.args) == 1 and _const_str(p, e.args[0]) == {";"} \
+                and stripped_left(e.func.value):
+            return "commentline"
+        # X[0] == ';' / X[:1] == ';'
+        if isinstance(e, ast.Compare) and len(e.ops) == 1 and isinstance(e.ops[0], (ast.Eq, ast.NotEq)) and _const_str(p, e.comparators[0]) == {";"} \
+                and isinstance(e.left, ast.Subscript) and stripped_left(e.left.value):
+            sl = e.left.slice
+            if (isinstance(sl, ast.Constant) and sl.value == 0) or (isinstance(sl, ast.Slice) and sl.lower is None and isinstance(sl.upper, ast.Constant) and sl.upper.value == 1):
+                return "commentline" if isinstance(e.ops[0], ast.Eq) else "!commentline"
+        # re.match(r'\s*;', X) / <compiled>.match(X)   [is (not) None]
+        if isinstance(e, ast.Compare) and len(e.ops) == 1 and isinstance(e.ops[0], (ast.Is, ast.IsNot)) and isinstance(e.comparators[0], ast.Constant) \
+                and e.comparators[0].value is None and isinstance(e.left, ast.Call):
+            inner = first_char_is_semicolon(e.left)
+            if inner == "commentline":
+                return "commentline" if isinstance(e.ops[0], ast.IsNot) else "!commentline"
+            return None
+        if isinstance(e, ast.Call):
+            try:
+                v = flow.value(e)
+            except Exception:
+                v = None
+            if v is not None and v.kind == "call" and v.recv is None and v.name == "re.match" and len(v.args) >= 2:
+                ok, pat = U.const_of(v.args[0])
+                pr = _parse_re(pat) if ok else None
+                if pr:
+                    items = pr[0]
+                    while items and _ws_only_item(*items[0]):
+                        items = items[1:]
+                    if items and items[0] == (sre_c.LITERAL, ord(";")):
+                        return "commentline"
+        return None
+
+    def blank(e: ast.AST) -> Optional[str]:
+        if isinstance(e, ast.Call) and isinstance(e.func, ast.Attribute) and e.func.attr in ("strip", "lstrip", "rstrip") and not e.args and _bool_ctx(pm, e) \
+                and line_like(e.func.value):
+            return "!blank"
+        if isinstance(e, ast.Call) and isinstance(e.func, ast.Attribute) and e.func.attr == "isspace" and line_like(e.func.value):
+            return "blank"
+        if isinstance(e, ast.Compare) and len(e.ops) == 1 and isinstance(e.ops[0], (ast.Eq, ast.NotEq)):
+            c = _const_str(p, e.comparators[0])
+            if c and c <= {"", "\n", "\r\n"} and line_like(e.left):
+                return "blank" if isinstance(e.ops[0], ast.Eq) else "!blank"
+        if isinstance(e, ast.Compare) and len(e.ops) == 1 and isinstance(e.left, ast.Call) and callee_name(e.left) == "len" and e.left.args and line_like(e.left.args[0]) \
+                and isinstance(e.comparators[0], ast.Constant) and e.comparators[0].value == 0:
+            if isinstance(e.ops[0], ast.Eq):
+                return "blank"
+            if isinstance(e.ops[0], (ast.NotEq, ast.Gt)):
+                return "!blank"
+        if isinstance(e, ast.Name) and isinstance(e.ctx, ast.Load) and _bool_ctx(pm, e) and line_like(e):
+            return "!blank"
+        return None
+
+    memo: Dict[int, Optional[str]] = {}
+
+    def matcher(e):
+        k = id(e)
+        if k not in memo:
+            memo[k] = None
+            if isinstance(e, (ast.Call, ast.Compare, ast.Name)):
+                memo[k] = first_char_is_semicolon(e) or blank(e)
+        return memo[k]
+
+    G = L.Guards(f, matcher)
+    g = G.g
+    val = {"commentline": False, "blank": False}
+    seen = G.reach(val)
+    valfn, _ = G.under(val, seen)
+    bad: List[Tuple[ast.AST, str]] = []
+    # comprehension filters anywhere in the function (every comprehension of tokenize is part of the token flow)
+    for n in ast.walk(f.node):
+        if isinstance(n, (ast.ListComp, ast.SetComp, ast.GeneratorExp)):
+            for gen in n.generators:
+                for cond in gen.ifs:
+                    if G.value(val, cond, seen) is not True:
+                        bad.append((cond, f"the filter `{unparse(cond, 60)}` of a comprehension"))
+    for c in L.calls_in(f.node):
+        if isinstance(c.func, ast.Name) and c.func.id == "filter" and len(c.args) == 2:
+            fn_ = c.args[0]
+            if isinstance(fn_, ast.Constant) and fn_.value is None:
+                continue
+            if isinstance(fn_, ast.Lambda) and G.value(val, fn_.body, seen) is True:
+                continue
+            bad.append((c, f"the filter `{unparse(c, 60)}`"))
+    # statement loops: the additions to a container must be certain in every iteration
+    add_nodes: Dict[int, str] = {}
+    for c in L.calls_in(f.node):
+        if isinstance(c.func, ast.Attribute) and c.func.attr in U.ADD_ONE + U.ADD_MANY + ("insert",) and isinstance(c.func.value, ast.Name):
+            n = g.node_containing(c)
+            if n is not None:
+                add_nodes[n] = c.func.value.id
+    for n in g.nodes():
+        st = g.stmt[n]
+        if isinstance(st, ast.AugAssign) and isinstance(st.target, ast.Name):
+            add_nodes[n] = st.target.id
+        elif isinstance(st, ast.Expr) and isinstance(st.value, (ast.Yield, ast.YieldFrom)):
+            add_nodes[n] = "<yield>"
+    for head in [n for n in g.nodes() if g.kind[n] == "loop" and isinstance(g.stmt[n], ast.For)]:
+        groups: Dict[str, Set[int]] = {}
+        for n, name in add_nodes.items():
+            if _in_loop(g, n, head):
+                groups.setdefault(name, set()).add(n)
+        if not groups:
+            continue
+        r.site(L.site(f, g.stmt[head].iter, "line filter"))
+        for name, mine in sorted(groups.items()):
+            inner = set()
+            for t in mine:
+                cur = g.loop_of.get(t)
+                while cur is not None and cur != head:
+                    inner.add(cur)       # an inner loop that adds: whether it iterates at all is not a filter on the line
+                    cur = g.loop_of.get(cur)
+            # a definition `x = []` that reaches the addition `container.extend(x)` adds nothing: reaching it is a skip as well
+            sinks: Set[int] = set()
+            for t in mine:
+                st = g.stmt[t]
+                arg = None
+                if isinstance(st, ast.AugAssign):
+                    arg = st.value
+                elif isinstance(st, ast.Expr) and isinstance(st.value, (ast.Yield, ast.YieldFrom)):
+                    arg = st.value.value
+                elif isinstance(st, ast.Expr) and isinstance(st.value, ast.Call) and st.value.args:
+                    arg = st.value.args[-1]
+                if isinstance(arg, ast.Name):
+                    for d in L.rd_of(f).defs_reaching(t, arg.id):
+                        ds = g.stmt[d] if d != g.entry else None
+                        if isinstance(ds, (ast.Assign, ast.AnnAssign)) and ds.value is not None and _is_empty(ds.value) and _in_loop(g, d, head):
+                            sinks.add(d)
+            body_reach = _iteration_without(G, g, val, head, mine | inner, sinks)
+            if body_reach is not None:
+                tests = [g.stmt[n].test for n in sorted(body_reach) if g.kind[n] == "if" and _in_loop(g, n, head) and C.eval3(g.stmt[n].test, valfn) is None
+                         and not getattr(g.stmt[n], "_inline_block", False)]
+                what = f"the test `{unparse(tests[0], 60)}`" if tests else "a path through the loop body"
+                bad.append((tests[0] if tests else g.stmt[head], what))
+                break
+    return bad
+
+
+def _is_empty(v: ast.AST) -> bool:
+    if isinstance(v, (ast.List, ast.Set, ast.Tuple)):
+        return not v.elts
+    if isinstance(v, ast.Dict):
+        return not v.keys
+    if isinstance(v, ast.Constant):
+        return v.value in ("", None)
+    return isinstance(v, ast.Call) and isinstance(v.func, ast.Name) and v.func.id in ("list", "set", "dict", "tuple", "deque", "iter") and not v.args and not v.keywords
+
+
+def _iteration_without(G: L.Guards, g: C.CFG, val: Dict[str, bool], head: int, targets, sinks=()) -> Optional[Set[int]]:
+    """the nodes of a path on which, under the valuation, one iteration of the loop ends (back at the head or outside of the loop,
+    other than by an exception) without executing any of the target nodes, or reaches one of the sink nodes; None when there is
+    no such path"""
+    res: Set[int] = set()
+    for s, l in g.succ[head]:
+        if l == "iter":
+            res |= G.reach(val, avoid=targets, start=s)
+    if head in res or any(n != g.raise_ and n != head and not _in_loop(g, n, head) for n in res) or any(n in res for n in sinks):
+        return res
+    return None
+
+
+def _in_loop(g: C.CFG, n: int, head: int) -> bool:
+    cur = g.loop_of.get(n)
+    while cur is not None:
+        if cur == head:
+            return True
+        cur = g.loop_of.get(cur)
+    return False
+
+
+def _const_str(p, e: ast.AST) -> Optional[Set[object]]:
+    """the constant values an expression can have (module constants are folded by the provenance engine); None when it is not constant"""
     try:
-        with warnings.catch_warnings():
-            warnings.simplefilter("ignore")
-            tree = sre_parse.parse(pat)
-    except Exception:
-        return False
-    items = list(tree)
-    if len(items) < 2:
-        return False
-    op0, av0 = items[0]
-    if not (op0 == sre_c.LITERAL and av0 == ord(";")):
-        return False
-    op1, av1 = items[1]
-    if op1 not in (sre_c.MAX_REPEAT, sre_c.MIN_REPEAT):
-        return False
-    lo, hi, sub = av1
-    subitems = list(sub)
-    if len(subitems) != 1 or subitems[0][0] != sre_c.ANY:
-        return False
-    if hi != sre_c.MAXREPEAT:
-        return False
-    rest = items[2:]
-    return all(op == sre_c.AT for op, _ in rest)
+        tr = p.trace(e)
+    except KeyError:
+        return None
+    out = set()
+    for x in tr:
+        if len(x) == 1 and x[0].startswith("const:"):
+            try:
+                out.add(ast.literal_eval(x[0][6:]))
+            except Exception:
+                return None
+        elif len(x) == 1 and x[0].startswith("global:"):
+            continue
+        else:
+            return None
+    return out or None
 
 
+# --------------------------------------------------------------------------- C11.pipeline
+def rule_pipeline(repo: Repo) -> RuleResult:
+    r = RuleResult("C11.pipeline", "text -> tokens: no separator deleted, lower-cased, parentheses padded, whitespace split, ';' comments cut",
+                   "invariant under layout, comments and case; distinct tokens never merge or split")
+    repo.module(TK)
+    init = L.fn(repo, INIT)
+    tok = L.fn(repo, TOKENIZE)
+    init_flow = U.Flow(repo, init)
+    rets = [x for x in L.func_returns(tok) if x.value is not None]
+    if not rets:
+        raise AnalysisError("tokenize: no value is returned")
+
+    # tests `';' in line` split the analysis into two worlds: lines with a comment (where it has to be cut) and lines without one
+    ptok = L.prov(repo, tok)
+    semi_memo: Dict[int, Optional[str]] = {}
+
+    def semi(e):
+        if id(e) not in semi_memo:
+            semi_memo[id(e)] = _semicolon_atom(ptok, e) if isinstance(e, ast.Compare) else None
+        return semi_memo[id(e)]
+
+    G = L.Guards(tok, semi)
+    worlds = [None] if "semi" not in G.atoms_seen else [True, False]
+    states: List[_Chain] = []
+    all_chains: List[List[U.Op]] = []
+    for world in worlds:
+        tok_flow = U.Flow(repo, tok) if world is None else U.Flow(repo, tok, guards=G, valuation={"semi": world})
+        cache: Dict[str, Optional[U.V]] = {}
+
+        def resolve_attr(attr: str, cache=cache, tok_flow=tok_flow) -> Optional[U.V]:
+            if attr not in cache:
+                cache[attr] = None          # (cycle guard: a store that reads the attribute itself)
+                st = init_flow.stores(attr) + tok_flow.stores(attr)
+                cache[attr] = U.alt([v for v, _n in st]) if st else None
+            return cache[attr]
+
+        chains_w: List[List[U.Op]] = []
+        for ret in rets:
+            chains_w.extend(U.chains(U.elem(tok_flow.value(ret.value)), resolve_attr))
+        all_chains.extend(chains_w)
+        try:
+            for ch in chains_w:
+                st_ = _judge(ch, world is True)
+                if world is False:
+                    st_.comment = True      # nothing to cut on a line without ';'
+                states.append(st_)
+        except _NotInterpreted as ex:
+            raise AnalysisError(f"tokenize: the computation of the tokens is not interpreted: {ex}")
+    if not all_chains:
+        r.site(tok.qn + " [chain]")
+        r.fail(Finding("C11.pipeline", tok, "chain:source", "tokenize() returns a container into which nothing is ever put"))
+
+    # (1) operations that delete a separator / alter tokens, parenthesis padding (reported where the operation is written)
+    seen_sites: Set[int] = set()
+    for st in states:
+        for op, a, b in st.replaces:
+            if id(op.v.node) not in seen_sites:
+                seen_sites.add(id(op.v.node))
+                r.site(L.site(op.home or tok, op.v.node, "replace"))
+                if not any(o is op for st2 in states for _r, _t, o in st2.problems):
+                    r.ok({"replace": [a, b]})
+    reported: Set[Tuple[str, str]] = set()
+    for st in states:
+        for role, text, op in st.problems:
+            home = op.home or tok
+            if (home.qn, role) in reported:
+                continue
+            reported.add((home.qn, role))
+            if id(op.v.node) not in seen_sites:
+                seen_sites.add(id(op.v.node))
+                r.site(L.site(home, op.v.node, op.name))
+            r.fail(Finding("C11.pipeline", home, role, text, node=op.v.node))
+
+    # (2) what every chain must contain
+    r.site(tok.qn + " [chain]")
+    missing: Dict[str, str] = {}
+    scan_problems: List[str] = []
+    scan_at: Optional[Tuple[str, U.Op]] = None
+    sources = set()
+    states = [st for st in states if not st.dead]
+    for st in states:
+        if st.root.startswith("param:") and st.root_home is not None and st.root_home.qn == init.qn:
+            sources.add(st.root)
+        elif st.root == "const" and st.tokenised is None:
+            continue        # a constant put into the container is judged like a chain that was never tokenised only when nothing else is
+        else:
+            missing.setdefault("source", f"tokens derive from {st.root} instead of the constructor's input")
+        if not st.lowered:
+            missing.setdefault("lower", "lower() is not applied")
+        if st.tokenised is None:
+            missing.setdefault("split", "the text is never split into tokens")
+        if st.tokenised == "split":
+            for ch in "()":
+                if not st.pad[ch]:
+                    missing.setdefault(f"pad{ch}", f"{ch!r} is not padded with blanks before the split")
+        if not st.comment:
+            missing.setdefault("comment", st.comment_why or "';' comments are not removed before the text is split")
+        if st.bad_split is not None:
+            missing.setdefault("whitespace-split", f"{unparse(st.bad_split.v.node, 60)} splits on one separator only, not on arbitrary whitespace")
+        if st.scan is not None:
+            pat, ws, op = st.scan
+            probs = _scan_regex_problems(pat)
+            probs = [p_ for p_ in probs if not any(p_.endswith("a " + nm) for ch, nm in WS4.items() if ch not in ws)]
+            for p_ in probs:
+                if p_ not in scan_problems:
+                    scan_problems.append(p_)
+            scan_at = scan_at or (pat, op)
+    if not states:
+        pass
+    elif scan_at is not None:
+        probs = list(scan_problems)
+        if "lower" in missing:
+            probs.append("lower() is not applied")
+        if "comment" in missing:
+            probs.append("';' comments are not removed")
+        for k in ("source", "split", "whitespace-split", "pad(", "pad)"):
+            if k in missing:
+                probs.append(f"{k}: {missing[k]}")
+        if probs:
+            r.fail(Finding("C11.pipeline", tok, "scan-regex:" + "/".join(sorted({p_.split(":")[0] for p_ in probs})),
+                           f"tokens are the matches of {scan_at[0]!r}: {probs}", node=scan_at[1].v.node))
+        else:
+            r.ok({"chain": "regex scan", "pattern": scan_at[0]})
+    else:
+        order = ["source", "lower", "split", "pad(", "pad)", "comment", "whitespace-split"]
+        miss = [k for k in order if k in missing]
+        if miss:
+            r.fail(Finding("C11.pipeline", tok, f"chain:{'/'.join(miss)}", f"tokenisation chain lacks {miss}: " + "; ".join(missing[k] for k in miss)))
+        else:
+            r.ok({"chain": ["comment", "lower", "pad(", "pad)", "split"], "split": "str.split() on arbitrary whitespace", "chains": len(states)})
+
+    # (3) a line is skipped only because it is a comment line / blank (in every function that takes part in the flow)
+    parts: Dict[int, Tuple[FuncInfo, FuncInfo]] = {id(tok.node): (tok, tok)}
+    for ch in all_chains:
+        for op in ch:
+            ctx = op.v.ctx if op.v is not None else None
+            if ctx is not None and ctx.f is not None and id(ctx.f.node) not in parts:
+                parts[id(ctx.f.node)] = (ctx.f, ctx.home or tok)
+    bad = []
+    for fpart, home in parts.values():
+        bad += [(home, node, what) for node, what in _line_filters(repo, fpart, r)]
+    for home, node, what in bad[:1]:
+        r.fail(Finding("C11.pipeline", home, "line-filter", f"{what} can keep a line that is neither a comment line nor blank out of the token stream", node=node))
+    if not bad:
+        r.ok({"line_filters": "only comment-line / blank-line tests"})
+
+    # (4) both input modes reach the tokens
+    r.site(init.qn + " [input modes]")
+    if {"param:file_path", "param:pddl_str"} <= sources:
+        r.ok({"modes": sorted(sources)})
+    else:
+        r.fail(Finding("C11.pipeline", init, "input-modes", f"the tokens are fed from {sorted(sources)} only"))
+    r.require_sites(3)
+    return r
+
+
+# --------------------------------------------------------------------------- emptiness tests of the token container
+def _bool_ctx(pm: dict, e: ast.AST) -> bool:
+    """the expression is evaluated for its truth value"""
+    par = pm.get(e)
+    if isinstance(par, (ast.If, ast.While, ast.IfExp, ast.Assert)):
+        return par.test is e
+    if isinstance(par, ast.UnaryOp) and isinstance(par.op, ast.Not):
+        return True
+    if isinstance(par, ast.BoolOp):
+        return _bool_ctx(pm, par)
+    if isinstance(par, ast.comprehension):
+        return any(c is e for c in par.ifs)
+    if isinstance(par, ast.Call) and isinstance(par.func, ast.Name) and par.func.id == "bool":
+        return True
+    return False
+
+
+def _empty_atom(e: ast.AST, is_tokens, pm: dict) -> Optional[str]:
+    """'empty' / '!empty' when the expression (in a boolean context) tests the token container for emptiness"""
+    def is_len(x):
+        return isinstance(x, ast.Call) and callee_name(x) == "len" and isinstance(x.func, ast.Name) and len(x.args) == 1 and is_tokens(x.args[0])
+
+    if isinstance(e, ast.Compare) and len(e.ops) == 1:
+        l, rr, op = e.left, e.comparators[0], e.ops[0]
+        flip = {ast.Lt: ast.Gt, ast.Gt: ast.Lt, ast.LtE: ast.GtE, ast.GtE: ast.LtE}
+        if is_len(rr) and isinstance(l, ast.Constant):
+            l, rr = rr, l
+            op = flip.get(type(op), type(op))()
+        if is_len(l) and isinstance(rr, ast.Constant) and isinstance(rr.value, int) and not isinstance(rr.value, bool):
+            c = rr.value
+            if (isinstance(op, ast.Eq) and c == 0) or (isinstance(op, ast.Lt) and c == 1) or (isinstance(op, ast.LtE) and c == 0):
+                return "empty"
+            if (isinstance(op, ast.NotEq) and c == 0) or (isinstance(op, ast.Gt) and c == 0) or (isinstance(op, ast.GtE) and c == 1):
+                return "!empty"
+        return None
+    if is_len(e) and _bool_ctx(pm, e):
+        return "!empty"
+    if isinstance(e, ast.Name) and isinstance(e.ctx, ast.Load) and _bool_ctx(pm, e) and is_tokens(e):
+        return "!empty"
+    return None
+
+
+# --------------------------------------------------------------------------- C11.eof
 def rule_eof(repo: Repo) -> RuleResult:
     r = RuleResult("C11.eof", "parse() rejects text that continues after the closing parenthesis of the top-level form",
                    "rejected with an error rather than truncated")
-    f = repo.func("PDDLTokenizer.parse")
+    f = L.fn(repo, PARSE)
+    p = L.prov(repo, f)
     g = C.cfg_of(f.node)
+    pm = L.parents_of(f)
     r.site(f.qn)
-    raises = [n for n in g.nodes() if g.kind[n] in ("raise", "assert")]
-    tested = False
-    for n in g.nodes():
-        st = g.stmt[n]
-        if isinstance(st, (ast.If, ast.Assert)):
-            t = st.test
-            if any(isinstance(x, ast.Call) and callee_name(x) == "len" for x in ast.walk(t)) or any(isinstance(x, ast.Name) for x in ast.walk(t)):
-                if isinstance(st, ast.Assert) or any(isinstance(s, ast.Raise) for s in C.stmts_in(st.body)) or any(isinstance(s, ast.Raise) for s in C.stmts_in(st.orelse)):
-                    tested = True
-    if tested and raises:
+    reads = [c for c in L.calls_in(f.node) if callee_name(c) == "read_from_tokens"]
+    ok = False
+    for c in reads:
+        arg = c.args[0] if c.args else next((k.value for k in c.keywords if k.arg == "tokens"), None)
+        if arg is None:
+            continue
+        try:
+            tpaths = p.trace(arg)
+        except KeyError:
+            continue
+        cn = g.node_containing(c)
+
+        def is_tokens(x, tpaths=tpaths):
+            if not isinstance(x, ast.Name):
+                return False
+            try:
+                return bool(tpaths) and p.trace(x) == tpaths
+            except KeyError:
+                return False
+
+        memo: Dict[int, Optional[str]] = {}
+
+        def matcher(e, is_tokens=is_tokens, memo=memo):
+            if id(e) not in memo:
+                memo[id(e)] = _empty_atom(e, is_tokens, pm) if isinstance(e, (ast.Compare, ast.Call, ast.Name)) else None
+            return memo[id(e)]
+
+        G = L.Guards(f, matcher)
+        if "empty" not in G.atoms_seen or cn is None:
+            continue
+        rest = G.reach({"empty": False}, start=cn)
+        done = G.reach({"empty": True}, start=cn)
+        if g.raise_ in rest and g.exit not in rest and g.exit in done:
+            ok = True
+    if ok:
         r.ok({"end_of_input_check": True})
     else:
         r.fail(Finding("C11.eof", f, "missing:end-of-input-check", "parse() returns the first form and never looks at the remaining tokens: '(a b))' and "
@@ -265,85 +1131,312 @@ def rule_eof(repo: Repo) -> RuleResult:
     return r
 
 
+# --------------------------------------------------------------------------- C11.reader
 def rule_reader(repo: Repo) -> RuleResult:
     r = RuleResult("C11.reader", "read_from_tokens: empty input and stray ')' raise; '(' collects sub-forms until the matching ')' and consumes it; atoms unchanged",
                    "the nested-list structure of the parenthesised tokens")
-    f = repo.func("PDDLTokenizer.read_from_tokens")
+    f = L.fn(repo, READ)
     p = L.prov(repo, f)
     g = C.cfg_of(f.node)
-    tokp = [x for x in f.params if x != f.self_name][0]
+    rd = L.rd_of(f)
+    pm = L.parents_of(f)
+    params = [x for x in f.params if x != f.self_name]
+    if not params:
+        raise AnalysisError("read_from_tokens: the token parameter was not found")
+    tokp = params[0]
+
+    def is_tokens(x) -> bool:
+        return L.is_param(p, x, tokp)
+
+    # statements that consume the first token of the container
+    pop_nodes: Set[int] = set()
+    for c in L.calls_in(f.node):
+        if isinstance(c.func, ast.Attribute) and c.func.attr == "popleft" and is_tokens(c.func.value):
+            n = g.node_containing(c)
+            if n is not None:
+                pop_nodes.add(n)
+    for n in g.nodes():
+        st = g.stmt[n]
+        if isinstance(st, ast.Delete) and any(isinstance(t, ast.Subscript) and is_tokens(t.value) and isinstance(t.slice, ast.Constant) and t.slice.value == 0 for t in st.targets):
+            pop_nodes.add(n)
+    after_pop: Set[int] = set()
+    for n in pop_nodes:
+        after_pop |= C.reachable_from(g, n) - ({n} if g.loop_of.get(n) is None else set())
+    HEAD = {(f"param:{tokp}", "call:popleft")}
+    PEEK = {(f"param:{tokp}", "item:0")}
+
+    def eval_points(x: ast.AST, n: int, depth: int = 0) -> Set[int]:
+        """CFG nodes at which the value of x was read from the container"""
+        if isinstance(x, ast.Name) and depth < 4:
+            out: Set[int] = set()
+            for d in rd.defs_reaching(n, x.id):
+                st = g.stmt[d] if d != g.entry else None
+                if isinstance(st, (ast.Assign, ast.AnnAssign)) and st.value is not None:
+                    out |= eval_points(st.value, d, depth + 1)
+                else:
+                    out.add(d)
+            return out or {n}
+        return {n}
+
+    def token_kind(x: ast.AST) -> Optional[str]:
+        """'head': the token this call dispatches on; 'next': the look-ahead token inside the list"""
+        try:
+            tr = p.trace(x)
+            n = p.node_of(x)
+        except KeyError:
+            return None
+        if not tr:
+            return None
+        if tr <= HEAD:
+            return "head"
+        if tr <= PEEK:
+            return "next" if eval_points(x, n) & after_pop else "head"
+        return None
+
+    memo: Dict[int, Optional[str]] = {}
 
     def matcher(e):
-        if isinstance(e, ast.Compare) and len(e.ops) == 1 and isinstance(e.comparators[0], ast.Constant):
-            c = e.comparators[0].value
-            l = e.left
-            if isinstance(l, ast.Call) and callee_name(l) == "len" and c == 0:
-                return "empty" if isinstance(e.ops[0], ast.Eq) else "!empty"
-            if isinstance(l, ast.Name) and c in ("(", ")"):
-                key = "open" if c == "(" else "close"
-                return key if isinstance(e.ops[0], ast.Eq) else "!" + key
-        if isinstance(e, ast.UnaryOp) and isinstance(e.op, ast.Not) and isinstance(e.operand, ast.Name) and e.operand.id == tokp:
-            return "empty"
-        return None
+        k = id(e)
+        if k in memo:
+            return memo[k]
+        memo[k] = None
+        out = None
+        if isinstance(e, ast.Compare) and len(e.ops) == 1 and isinstance(e.ops[0], (ast.Eq, ast.NotEq)):
+            l, rr = e.left, e.comparators[0]
+            cl, cr = _const_str(p, l), _const_str(p, rr)
+            if cl is not None and cr is None:
+                l, rr, cr = rr, l, cl
+            if cr is not None and len(cr) == 1 and next(iter(cr)) in ("(", ")"):
+                kind = token_kind(l)
+                if kind is not None:
+                    key = ("open" if next(iter(cr)) == "(" else "close") if kind == "head" else ("next_open" if next(iter(cr)) == "(" else "next_close")
+                    out = key if isinstance(e.ops[0], ast.Eq) else "!" + key
+        if out is None and isinstance(e, (ast.Compare, ast.Call, ast.Name)):
+            out = _empty_atom(e, is_tokens, pm)
+            if out is not None:
+                # a test after the first token was consumed is about the rest of the input, not about the input of this call
+                try:
+                    if p.node_of(e) in after_pop:
+                        out = out.replace("empty", "empty_later")
+                except KeyError:
+                    out = None
+        memo[k] = out
+        return out
 
     G = L.Guards(f, matcher)
     raises = [n for n in g.nodes() if g.kind[n] == "raise"]
     rets = [n for n in g.nodes() if g.kind[n] == "return"]
+
+    # ---- empty input
     r.site(f.qn + " [empty]")
-    seen = G.reach({"empty": True})
-    if any(n in seen for n in raises) and not any(n in seen for n in rets):
+    ok = False
+    eafp_nodes: Set[int] = set()
+    if "empty" in G.atoms_seen:
+        seen = G.reach({"empty": True})
+        ok = any(n in seen for n in raises) and not any(n in seen for n in rets) and g.exit not in seen
+    else:
+        # EAFP: the first access to the container sits in a try whose IndexError handler raises
+        first_pop = [m for m in pop_nodes if not any(m in C.reachable_from(g, o) - {o} for o in pop_nodes if o != m)]
+        for n in g.nodes():
+            st = g.stmt[n]
+            if g.kind[n] != "try" or not isinstance(st, ast.Try) or not first_pop:
+                continue
+            in_body = {g.node_of(s_) for s_ in C.stmts_in(st.body)}
+            if not all(m in in_body for m in first_pop):
+                continue
+            for h in st.handlers:
+                names = {x.id for x in ast.walk(h.type) if isinstance(x, ast.Name)} if h.type is not None else {"IndexError"}
+                hn = g.node_of(h)
+                hs = C.reachable_from(g, hn) if hn is not None else set()
+                if names & {"IndexError", "LookupError", "Exception", "BaseException"} and g.raise_ in hs and g.exit not in hs:
+                    ok = True
+                    eafp_nodes |= hs
+    if ok:
         r.ok({"empty_input": "raises"})
     else:
         r.fail(Finding("C11.reader", f, "empty-input", "empty input does not raise"))
+
+    # ---- stray ')'
     r.site(f.qn + " [stray close]")
     seen = G.reach({"empty": False, "open": False, "close": True})
-    if any(n in seen for n in raises) and not any(n in seen for n in rets):
+    if "close" in G.atoms_seen and any(n in seen and n not in eafp_nodes for n in raises) and not any(n in seen for n in rets) and g.exit not in seen:
         r.ok({"stray_close": "raises"})
     else:
         r.fail(Finding("C11.reader", f, "stray-close", "a stray ')' does not raise"))
+
+    # ---- atom
     r.site(f.qn + " [atom]")
-    seen = G.reach({"empty": False, "open": False, "close": False})
+    val_atom = {"empty": False, "open": False, "close": False}
+    seen = G.reach(val_atom)
     atom_rets = [g.stmt[n] for n in rets if n in seen]
-    ok = bool(atom_rets) and all(any("call:popleft" in x or "call:pop" in x for x in p.trace(x_.value)) and
-                                 not any("call:lower" in x or "call:strip" in x for x in p.trace(x_.value)) for x_ in atom_rets)
-    if ok and not any(n in seen for n in raises):
+
+    def is_head_token(e: Optional[ast.AST]) -> bool:
+        if e is None:
+            return False
+        tr = _trace_under(f, p, G, val_atom, e, seen)
+        return bool(tr) and (tr <= HEAD or (tr <= PEEK and bool(pop_nodes & seen)))
+
+    ok = bool(atom_rets) and all(is_head_token(x_.value) for x_ in atom_rets) and g.exit in seen
+    implicit_none = any(m in seen and g.kind[m] != "return" for m, _l in g.pred[g.exit])
+    if ok and not any(n in seen and n not in eafp_nodes for n in raises) and not implicit_none:
         r.ok({"atom": "the popped token itself"})
     else:
         r.fail(Finding("C11.reader", f, "atom", "an atom token is not returned unchanged"))
+
+    # ---- list
     r.site(f.qn + " [list]")
-    seen = G.reach({"empty": False, "open": True, "close": False})
-    loops = [n for n in g.nodes() if g.kind[n] == "loop" and n in seen and isinstance(g.stmt[n], ast.While)]
-    ok = False
-    if loops:
-        w = g.stmt[loops[0]]
-        cond_ok = isinstance(w.test, ast.Compare) and isinstance(w.test.ops[0], ast.NotEq) and isinstance(w.test.comparators[0], ast.Constant) and \
-            w.test.comparators[0].value == ")" and isinstance(w.test.left, ast.Subscript) and isinstance(w.test.left.slice, ast.Constant) and w.test.left.slice.value == 0
-        apps = [c for c in L.calls_in(w) if isinstance(c.func, ast.Attribute) and c.func.attr == "append" and c.args and isinstance(c.args[0], ast.Call)
-                and callee_name(c.args[0]) == f.name]
-        after = C.reachable_from(g, loops[0], follow=lambda a, b, l: not (a == loops[0] and l == "iter")) - {loops[0]}
-        pops = [c for c in L.calls_in(f.node) if isinstance(c.func, ast.Attribute) and c.func.attr == "popleft" and g.node_containing(c) in after
-                and g.loop_of.get(g.node_containing(c)) is None]
-        list_rets = [g.stmt[n] for n in rets if n in after]
-        ret_ok = bool(list_rets) and all(isinstance(x.value, ast.Name) and x.value.id == (apps[0].func.value.id if apps and isinstance(apps[0].func.value, ast.Name) else "") for x in list_rets)
-        ok = cond_ok and len(apps) == 1 and bool(pops) and ret_ok
-    if ok:
-        r.ok({"list": "while tokens[0] != ')': append(read_from_tokens(tokens)); popleft(); return list"})
+    why = _list_branch(f, p, g, G, tokp, is_tokens, pop_nodes, rets)
+    if why is None:
+        r.ok({"list": "consume '('; while the next token is not ')': append(read_from_tokens(tokens)); consume ')'; return the list"})
     else:
-        r.fail(Finding("C11.reader", f, "list-branch", "the '(' branch does not collect every sub-form up to the matching ')' and consume it"))
-    # parse() reads from tokenize()
-    pf = repo.func("PDDLTokenizer.parse")
+        r.fail(Finding("C11.reader", f, "list-branch", f"the '(' branch does not collect every sub-form up to the matching ')' and consume it: {why}"))
+
+    # ---- parse() reads from tokenize()
+    pf = L.fn(repo, PARSE)
     pp = L.prov(repo, pf)
     r.site(pf.qn)
     ok = False
     for c in L.calls_in(pf.node):
-        if callee_name(c) == "read_from_tokens" and c.args and any(x == ("self", "call:tokenize") for x in pp.trace(c.args[0])):
-            ok = True
+        if callee_name(c) == "read_from_tokens":
+            arg = c.args[0] if c.args else next((k.value for k in c.keywords if k.arg == tokp), None)
+            if arg is None:
+                continue
+            tr = pp.trace(arg)
+            if tr and any(x[:2] == ("self", "call:tokenize") and set(x[2:]) <= {"arg0:deque", "call:copy"} for x in tr) and \
+                    all(x[:2] == ("self", "call:tokenize") or x[0].startswith(("fresh:", "ext:", "global:")) for x in tr):
+                ok = True
+                # nothing may be taken out of / put into the container between tokenize() and the reader
+                pg = C.cfg_of(pf.node)
+                cn = pg.node_containing(c)
+                for m in L.calls_in(pf.node):
+                    if m is c or not isinstance(m.func, ast.Attribute) or m.func.attr not in MUTATORS:
+                        continue
+                    try:
+                        same = pp.trace(m.func.value) == tr
+                    except KeyError:
+                        same = False
+                    mn = pg.node_containing(m)
+                    if same and mn is not None and cn is not None and cn in C.reachable_from(pg, mn) and mn != cn:
+                        ok = False
+                for n in pg.nodes():
+                    st = pg.stmt[n]
+                    tg = st.targets if isinstance(st, (ast.Delete, ast.Assign)) else []
+                    for t in tg:
+                        try:
+                            if isinstance(t, ast.Subscript) and pp.trace(t.value) == tr and cn is not None and cn in C.reachable_from(pg, n) and n != cn:
+                                ok = False
+                        except KeyError:
+                            pass
     if ok:
         r.ok({"parse": "read_from_tokens(self.tokenize())"})
     else:
-        r.fail(Finding("C11.reader", pf, "parse-source", "parse() does not read the tokens produced by tokenize()"))
+        r.fail(Finding("C11.reader", pf, "parse-source", "parse() does not read exactly the tokens produced by tokenize()"))
     r.require_sites(5)
     return r
+
+
+def _trace_under(f: FuncInfo, p, G: L.Guards, val: Dict[str, bool], e: ast.AST, seen: Set[int]) -> Set[tuple]:
+    """provenance of e under the valuation; for a local name the definitions that cannot reach the use along a path the valuation
+    allows (`x = a; if c: x = b; return x` with c true) do not contribute"""
+    g = G.g
+    tr = p.trace(e, under=G.under(val, seen))
+    if not isinstance(e, ast.Name):
+        return tr
+    try:
+        n = p.node_of(e)
+    except KeyError:
+        return tr
+    rd = L.rd_of(f)
+    defs = rd.defs_reaching(n, e.id)
+    all_defs = {d for d in g.nodes() if g.stmt[d] is not None and e.id in C.defs_of(g.stmt[d])}
+    live, dead = set(), set()
+    for d in defs:
+        if d == g.entry or d not in seen:
+            continue
+        st = g.stmt[d]
+        if not (isinstance(st, ast.Assign) and len(st.targets) == 1 and isinstance(st.targets[0], ast.Name)):
+            return tr
+        succs = set()
+        for m, _l in g.succ[d]:
+            succs |= G.reach(val, avoid=all_defs, start=m) if m not in all_defs else set()
+        (live if n in succs else dead).add(d)
+    if not dead or not live:
+        return tr
+    keep = set()
+    for d in live:
+        keep |= p.trace(g.stmt[d].value, at=d)
+    drop = set()
+    for d in dead:
+        drop |= p.trace(g.stmt[d].value, at=d)
+    return tr - (drop - keep)
+
+
+def _list_branch(f: FuncInfo, p, g: C.CFG, G: L.Guards, tokp: str, is_tokens, pop_nodes: Set[int], rets: List[int]) -> Optional[str]:
+    """None when the '(' case is the reader loop; otherwise what is wrong"""
+    val = {"empty": False, "open": True, "close": False}
+    seen = G.reach(val)
+    rec_self = ("self", f"call:{f.name}")
+    rec_arg = {(f"param:{tokp}", f"arg0:{f.name}"), (f"param:{tokp}", f"kw:{tokp}:{f.name}")}
+
+    def is_rec(e: ast.AST) -> bool:
+        try:
+            tr = p.trace(e)
+        except KeyError:
+            return False
+        return bool(tr & rec_arg) and tr <= (rec_arg | {rec_self})
+
+    adds = [(el, site) for el, conds, site, comp in L.container_additions(f, lambda recv: isinstance(recv, ast.Name)) if conds == [] and comp is None and is_rec(el)]
+    adds = [(el, site) for el, site in adds if (g.node_containing(site) if not isinstance(site, ast.stmt) else g.node_of(site)) in seen]
+    if not adds:
+        return "no statement adds the result of the recursive call on the same tokens to a list"
+    if len(adds) > 1:
+        return "the recursive result is added at more than one place"
+    el, site = adds[0]
+    an = g.node_containing(site) if not isinstance(site, ast.stmt) else g.node_of(site)
+    head = g.loop_of.get(an)
+    if head is None:
+        return "the recursive call is not repeated in a loop"
+    if "next_close" not in G.atoms_seen:
+        return "the loop does not look at the next token to find the matching ')'"
+    # '(' consumed before the loop
+    if head in G.reach(val, avoid=pop_nodes):
+        return "the loop can be entered without the '(' having been consumed"
+    # next token is ')': leave the loop, consume it, return the list
+    # (reachability is computed from the entry so that flags set before the loop keep their value)
+    vc = dict(val, next_close=True)
+    sc = G.reach(vc)
+    if an in sc:
+        return "a sub-form is read although the next token is ')'"
+    out_rets = [n for n in rets if n in sc]
+    if not out_rets or any(m in sc and g.kind[m] != "return" for m, _l in g.pred[g.exit]):
+        return "after the matching ')' the list is not returned"
+    pop_after = pop_nodes & C.reachable_from(g, head)
+    if g.exit in G.reach(vc, avoid=pop_after):
+        return "the matching ')' is not consumed before returning"
+    # next token is not ')': exactly one sub-form is appended per iteration and the loop goes on
+    vo = dict(val, next_close=False)
+    so = G.reach(vo)
+    if an not in so:
+        return "no sub-form is read although the next token is not ')'"
+    if g.exit in so:
+        return "the loop can be left although the next token is not ')'"
+    if _iteration_without(G, g, vo, head, [an]) is not None:
+        return "an iteration can finish without reading a sub-form"
+    if pop_after & so:
+        return "a token is dropped inside the loop although the next token is not ')'"
+    # the list that is returned is the one the sub-forms were added to
+    for n in out_rets:
+        rv = g.stmt[n].value
+        tr = _trace_under(f, p, G, val, rv, seen) if rv is not None else set()
+        content = [x for x in tr if x[:2] in rec_arg or x[:2] == rec_self]
+        shell = [x for x in tr if x not in content]
+        if not any(x[:2] in rec_arg for x in content):
+            return "the returned value is not the list the sub-forms were added to"
+        if not all(all(s.startswith(("in:append@", "in:extend@", "in:0", "aug:", "in:insert@")) for s in x[2:]) and len(x) > 2 for x in content):
+            return "the collected sub-forms are transformed before they are returned"
+        if not all((x[0] in ("fresh:list", "fresh:list()") or x[0].startswith("aug:")) and all(s_.startswith("aug:") for s_ in x[1:]) for x in shell):
+            return f"the returned value also derives from {sorted(shell)[:2]}"
+    return None
 
 
 def rules(repo: Repo, tier: str) -> List[RuleResult]:
